@@ -346,6 +346,9 @@ def model_line(case, ap, names):
             pass
         line = ["aa", fresh("idx"), lhs, rhs, 1 if bad else 0]
 
+        if ap.refused and R.refusal_class(ap.refused).startswith("other:"):
+            raise R.OutOfDomain("refusal reason outside the model")
+
         def cmp(ans):
             if ans[0] == "refuse":
                 return ap.refused is not None and R.refusal_class(ap.refused) == ans[1], ans
@@ -390,6 +393,8 @@ def model_line(case, ap, names):
         else:
             c2.replace_with(hole)
             ctx = R.ex(tree.rhs, names)
+        if ap.refused and R.refusal_class(ap.refused).startswith("other:"):
+            raise R.OutOfDomain("refusal reason outside the model")
         line = ["red", fresh("idx"), fresh("tmp_var"), case["target"][1].lower(), expr, mask,
                 1 if pos["dim"] is not None else 0, R.tgt_of(stmt.lhs, names), names.id(FRESH["hole"]), ctx, R.HUGE]
 
@@ -536,12 +541,14 @@ def run(chk):
         res = psy_batch(batch, params)
         if res is None:
             singles += [(c, params) for c in batch]
+            dist["batches not transformable as a whole"] = dist.get("batches not transformable as a whole", 0) + 1
         else:
             pending.append(res)
     outs = R.run_pairs([(src, out) for _, src, out in pending], checks=False, raw=True)
     for (entries, src, out), ((s0, o0), (s1, o1)) in zip(pending, outs):
         if s0 != "ok" or s1 != "ok":
             singles += [(e["case"], e["params"]) for e in entries]
+            dist.setdefault("batch fallbacks", []).append((s0 + ": " + o0[-300:]) if s0 != "ok" else (s1 + ": " + o1[-300:]))
             continue
         b0, b1 = R.split_blocks(o0), R.split_blocks(o1)
         for j, e in enumerate(entries):
